@@ -64,7 +64,17 @@ def gen_replay(leg, prop, tier, seed, workdir, report):
     cfgp = os.path.join(workdir, "gen.cfg")
     base = open(os.path.join(R.SPEC, leg["gen_cfg"])).read()
     open(cfgp, "w").write(re.sub(r"Depth = \d+", "Depth = %d" % depth, base))
-    lines, states, gen, dt = tlc_print_lines(leg["gen_spec"], cfgp, workdir, timeout=leg.get("timeout", 1800))
+    extra = leg.get("gen_extra")
+    if extra:
+        extra = [x.replace("{N}", str(leg.get("gen_num", (300, 3000))[0 if tier == "quick" else 1])).replace("{SEED}", str(seed)) for x in extra]
+    lines, states, gen, dt = tlc_print_lines(leg["gen_spec"], cfgp, workdir, timeout=leg.get("timeout", 1800), extra=extra)
+    lines = sorted(set(lines))
+    if leg.get("exclude"):
+        lines = [l for l in lines if not re.search(leg["exclude"], l)]
+    if leg.get("include"):
+        lines = [l for l in lines if re.search(leg["include"], l)]
+    if leg.get("augment"):
+        lines = [json.dumps(leg["augment"](json.loads(l), i)) for i, l in enumerate(lines)]
     limit = leg["limit"][0 if tier == "quick" else 1]
     if len(lines) < leg.get("min_behaviours", 100):
         raise R.ToolError("generator produced only %d behaviours" % len(lines))
